@@ -374,23 +374,32 @@ Fixpoint observable (sh : shape) (n : node) (d : delta) : bool :=
   end.
 
 (* ------------------------------------------------------------------ values and equality *)
-(* Value::equals on value(): validity first, then contents; an invalid child is an unset element *)
-Fixpoint veq (sh : shape) (a b : node) : bool :=
-  Bool.eqb (nvalid a) (nvalid b) &&
-  (negb (nvalid a) ||
+(* Value::equals on value().  A bundle value carries a validity mask per field and a map only
+   holds the live keys, so there validity is compared first ([strict]); the value of a fixed
+   list has no element validity: a never-set scalar element reads as 0, an unset collection
+   element as empty *)
+Fixpoint veqm (strict : bool) (sh : shape) (a b : node) : bool :=
+  (negb strict || Bool.eqb (nvalid a) (nvalid b)) &&
+  ((strict && negb (nvalid a)) ||
    match sh, a, b with
-   | (TS | SIGNAL), NLeaf _ x, NLeaf _ y => match x, y with Some p, Some q => p =? q | None, None => true | _, _ => false end
+   | (TS | SIGNAL), NLeaf _ x, NLeaf _ y =>
+       match x, y with
+       | Some p, Some q => p =? q
+       | None, None => true
+       | Some p, None | None, Some p => negb strict && (p =? 0)
+       end
    | TSW _ _, NWin _ x, NWin _ y => if list_eq_dec Z.eq_dec x y then true else false
    | TSS, NSet _ _ x _ _, NSet _ _ y _ _ => if list_eq_dec Z.eq_dec x y then true else false
    | TSD e, NDict _ _ x, NDict _ _ y =>
        let lx := filter slot_live x in
        let ly := filter slot_live y in
        (if list_eq_dec Z.eq_dec (map fst lx) (map fst ly) then true else false) &&
-       forallb (fun b => b) (zipw (fun p q => veq e (snd (snd p)) (snd (snd q))) lx ly)
-   | TSL _ e, NIdx _ _ x, NIdx _ _ y => forallb (fun b => b) (zipw (veq e) x y)
-   | TSB fs, NIdx _ _ x, NIdx _ _ y => forallb (fun b => b) (zipw3 veq fs x y)
+       forallb (fun b => b) (zipw (fun p q => veqm true e (snd (snd p)) (snd (snd q))) lx ly)
+   | TSL _ e, NIdx _ _ x, NIdx _ _ y => forallb (fun b => b) (zipw (veqm false e) x y)
+   | TSB fs, NIdx _ _ x, NIdx _ _ y => forallb (fun b => b) (zipw3 (veqm true) fs x y)
    | _, _, _ => false
    end).
+Definition veq := veqm true.
 
 Fixpoint zlist_eqb (a b : list Z) : bool :=
   match a, b with [] , [] => true | x :: r, y :: s => (x =? y) && zlist_eqb r s | _, _ => false end.
